@@ -550,31 +550,43 @@ impl Cfg {
                 }
             }
         }
-        // Remove variables until all which remain satisfy the condition.
-        let mut constants: HashSet<VariableName> = assigned.keys().cloned().collect();
-        loop {
-            let removed: Vec<VariableName> = constants
-                .iter()
-                .filter(|&name| {
-                    assigned[name].iter().any(|&(index, rhe)| {
-                        let conditional_join = matches!(rhe, Expression::Phi { .. })
-                            && join_conditions[index].iter().any(|&header| {
-                                !matches!(
-                                    self.basic_blocks[header].statements().last(),
-                                    Some(Statement::IfThenElse { cond, .. })
-                                        if self.is_constant_expression(cond, &constants)
-                                )
-                            });
-                        conditional_join || !self.is_constant_expression(rhe, &constants)
-                    })
-                })
-                .cloned()
-                .collect();
-            if removed.is_empty() {
-                break;
+        // For each variable, the variables which depend on it (it is read by an expression
+        // which is assigned to them, or by a condition which chooses between the arguments of
+        // one of their phi expressions). A variable with an assignment which is not built as
+        // required is not constant, whatever the others are.
+        let mut dependents: HashMap<VariableName, Vec<&VariableName>> = HashMap::new();
+        let mut work_list = Vec::new();
+        for (name, assignments) in &assigned {
+            let mut reads = Vec::new();
+            let mut is_constant = true;
+            for &(index, rhe) in assignments {
+                is_constant = is_constant && self.constant_reads(rhe, &assigned, &mut reads);
+                if matches!(rhe, Expression::Phi { .. }) {
+                    for &header in &join_conditions[index] {
+                        is_constant = is_constant
+                            && match self.basic_blocks[header].statements().last() {
+                                Some(Statement::IfThenElse { cond, .. }) => {
+                                    self.constant_reads(cond, &assigned, &mut reads)
+                                }
+                                _ => false,
+                            };
+                    }
+                }
             }
-            for name in &removed {
-                constants.remove(name);
+            if !is_constant {
+                work_list.push(name);
+            }
+            for read in reads {
+                dependents.entry(read).or_default().push(name);
+            }
+        }
+        // Remove variables until all which remain depend on each other only.
+        let mut constants: HashSet<VariableName> = assigned.keys().cloned().collect();
+        while let Some(name) = work_list.pop() {
+            if constants.remove(name) {
+                if let Some(names) = dependents.get(name) {
+                    work_list.extend(names.iter());
+                }
             }
         }
         let mut result = Vec::new();
@@ -591,20 +603,32 @@ impl Cfg {
     }
 
     /// Returns true if the expression is built from numbers, parameters of the template and
-    /// the given variables.
-    fn is_constant_expression(&self, expr: &Expression, constants: &HashSet<VariableName>) -> bool {
+    /// the given local variables (the ones which are assigned). The variables which are read
+    /// are added to `reads`.
+    fn constant_reads<T>(
+        &self,
+        expr: &Expression,
+        variables: &HashMap<VariableName, T>,
+        reads: &mut Vec<VariableName>,
+    ) -> bool {
         use Expression::*;
+        let mut is_variable = |name: &VariableName| {
+            let name = name.without_version();
+            let result = variables.contains_key(&name);
+            if result {
+                reads.push(name);
+            }
+            result
+        };
         match expr {
             Number(_, _) => true,
-            Variable { name, .. } => {
-                self.parameters().contains(name) || constants.contains(&name.without_version())
-            }
+            Variable { name, .. } => self.parameters().contains(name) || is_variable(name),
             InfixOp { lhe, rhe, .. } => {
-                self.is_constant_expression(lhe, constants)
-                    && self.is_constant_expression(rhe, constants)
+                self.constant_reads(lhe, variables, reads)
+                    && self.constant_reads(rhe, variables, reads)
             }
-            PrefixOp { rhe, .. } => self.is_constant_expression(rhe, constants),
-            Phi { args, .. } => args.iter().all(|arg| constants.contains(&arg.without_version())),
+            PrefixOp { rhe, .. } => self.constant_reads(rhe, variables, reads),
+            Phi { args, .. } => args.iter().all(is_variable),
             _ => false,
         }
     }
